@@ -3,8 +3,10 @@
 # undoes it straight afterwards. Prints one line per seed: CAUGHT / MISSED / DOES-NOT-APPLY. Never commits in /repo.
 cd "$(dirname "$0")/.."
 if [ -n "$(git -C /repo status --porcelain)" ]; then echo "/repo working tree is not clean"; exit 2; fi
+# SEED_LIST=<file>: only the seeds named in the file (one directory name per line)
 for d in "$(pwd)"/seeded/C*/; do
-  name=$(basename $d); id=$(echo $name | cut -c1-3 | tr 'A-Z' 'a-z')
+  name=$(basename $d); [ -n "$SEED_LIST" ] && ! grep -qx "$name" "$SEED_LIST" && continue
+  id=$(echo $name | cut -c1-3 | tr 'A-Z' 'a-z')
   # a change delivered for one property that breaks another one names the check that decides it (meta.json "check")
   other=$(python3 -c "import json;print(json.load(open('$d/meta.json')).get('check',''))" | tr 'A-Z' 'a-z'); [ -n "$other" ] && id=$other
   if ! git -C /repo apply --check $d/patch.diff 2>/dev/null; then echo "$name DOES-NOT-APPLY"; continue; fi
